@@ -32,7 +32,7 @@ C["C14"]=dict(cat="exploration", tech="bounded-exhaustive configuration sweep on
  text="Sweep MTU x padding maxima x low-entropy mode x write sizes x handshake mode with padding draws forced to their maximum (and seeded), one forced periodic drop so that retransmissions appear; plus the C02 single-fault and periodic-loss executions; every datagram is measured against the MTU and every length field against the documented limits.",
  note=TRUST, ref="DESIGN.md §6 C14")
 C["C16"]=dict(cat="exploration", tech="bounded-exhaustive enumeration of TrafficPattern messages through the real NewConfig/Validate/Encode/Decode and cipher code",
- text="All 8192 subsets of the 13 optional fields with rotated boundary values, all pairs of fields x all boundary combinations x seeds x unlockAll, and 200 (quick) / 20000 (thorough) seeds x every single explicit value: effective pattern validates, explicit fields unchanged, construction stable, encoding lossless, the real cipher's nonces obey the effective pattern. (Wire-level part B is covered by the C09/C14 monitors for padding and low entropy; see level note.)",
+ text="All 8192 subsets of the 13 optional fields with rotated boundary values, all pairs of fields x all boundary combinations x seeds x unlockAll, and 200 (quick) / 20000 (thorough) seeds x every single explicit value: effective pattern validates, explicit fields unchanged, construction stable, encoding lossless, the real cipher's nonces obey the effective pattern. Part B: a wire monitor on the TCP pattern/size matrices and the UDP matrix compares every decoded segment with the sender's effective pattern (padding maxima, nonce prefix type/length/fixed prefixes, low-entropy mode and rotation, server low entropy only after the client's, TCP fragmentation on/off).",
  note=SEQ+" A genuine defect found by this check was repaired (fix: commit, see known_findings.jsonl).", ref="DESIGN.md §6 C16")
 C["C17"]=dict(cat="exploration", tech="exhaustive enumeration of finite input spaces of the real codec and of both PDEP/PEXT implementations against a bit-by-bit reference",
  text="All (x,mask) pairs in a 14-bit (quick) / 16-bit (thorough) lane at 4 positions and all 1-/2-bit masks: generic vs BMI2 vs reference; single-chunk codec for every half-mask of the mode's weight in a window (quick) / all 32-bit half-masks (thorough); multi-chunk bodies x 31 rotations; every 1- and 2-bit corruption and metadata perturbation of short encodings: accepted implies canonical.",
